@@ -436,6 +436,81 @@ class RustRef:
         w('ok')
         w.close()
 
+    # ------------------------------------------------------------------ C06: specialization oracle
+    def spec_cases(self, P):
+        """per direct child X of P: [(constraints restricted to P's data fields, own static octets or None)]
+        for X and every descendant of X; with_size: two children share a constraint tuple"""
+        data = {f.name for _, f in self.m.data_fields(P)}
+        cases = {}
+
+        def walk(root, n, acc):
+            acc = dict(acc)
+            for k, v in self.m.decls[n].constraints:
+                if k in data:
+                    acc[k] = self.m.constraint_value(n, k, v)
+            bits = self.m._own_static_bits(n, (), count_payload=True)
+            cases.setdefault(root, []).append((acc, None if bits is None else bits // 8))
+            for c in self.m.children(n):
+                walk(root, c, acc)
+        for X in self.m.children(P):
+            walk(X, X, {})
+        seen = {}
+        with_size = False
+        for X, cs in cases.items():
+            for acc, _ in cs:
+                key = tuple(sorted(acc.items()))
+                if key in seen and seen[key] != X:
+                    with_size = True
+                seen.setdefault(key, X)
+        return cases, with_size
+
+    def emit_spec(self, w: W, P):
+        kids = self.m.children(P)
+        if not kids or not all(self.supported(k) for k in kids):
+            return
+        ch = self.m.chain(P)
+        lvP = len(ch) - 1
+        has_pl = self.m.has_payload(P)
+        cases, with_size = self.spec_cases(P)
+        for X in kids:
+            w.open(f'pub fn ref_try_{P}_{X}(r: &R_{P}) -> (bool, bool, R_{X}) {{')
+            conds = []
+            for k, v in self.m.decls[X].constraints:
+                lv = self.level_of(X, k)
+                conds.append(f'r.l{lv}.f_{k} == {self.m.constraint_value(X, k, v):#x}u64')
+            w(f'let cons_ok: bool = {" && ".join(conds) if conds else "true"};')
+            w(f'let mut x = R_{X}::new();')
+            for i in range(len(ch)):
+                w(f'x.l{i} = r.l{i};')
+            if has_pl:
+                w('let mut fl = Faults::new();')
+                w(f'let pl: &[u8] = &r.l{lvP}.payload.items[..r.l{lvP}.payload.len];')
+                w.open(f'let parse_ok: bool = match rd_own_{X}(pl, &mut fl) {{')
+                w(f'Ok((o, used)) => {{ x.l{lvP + 1} = o; used == pl.len() && fl.count == 0 }}')
+                w('Err(_) => false,')
+                w.close('};')
+            else:
+                w('let parse_ok: bool = true;')
+            w('(cons_ok, parse_ok, x)')
+            w.close()
+        w.open(f'pub fn ref_spec_{P}(r: &R_{P}) -> (i32, bool) {{')
+        w(f'let pl_len: usize = {f"r.l{lvP}.payload.len" if has_pl else "0"};')
+        for k, X in enumerate(kids):
+            alts = []
+            for acc, sz in cases[X]:
+                cs = [f'r.l{self.level_of(P, f)}.f_{f} == {v:#x}u64' for f, v in sorted(acc.items())]
+                if with_size and sz is not None:
+                    cs.append(f'pl_len == {sz}')
+                alts.append('(' + (' && '.join(cs) if cs else 'true') + ')')
+            w(f'let m{k}: bool = {" || ".join(alts)};')
+        w('let cnt: i32 = ' + ' + '.join(f'(m{k} as i32)' for k in range(len(kids))) + ';')
+        w('if cnt == 0 { return (-1, false); }')
+        w('if cnt > 1 { return (-2, false); }')
+        for k, X in enumerate(kids):
+            w(f'if m{k} {{ let t = ref_try_{P}_{X}(r); return ({k}, t.0 && t.1); }}')
+        w('(-1, false)')
+        w.close()
+
     # ------------------------------------------------------------------ all
     def emit_decode_side(self) -> str:
         w = W()
@@ -448,6 +523,9 @@ class RustRef:
             if self.supported(name):
                 self.emit_rd_any(w, name)
                 self.emit_eq(w, name)
+        for name in self.types:
+            if self.supported(name):
+                self.emit_spec(w, name)
         return w.text()
 
 
